@@ -13,26 +13,26 @@ import (
 
 // Profile tunes the generator towards the antecedent of one property.
 type Profile struct {
-	Name        string
-	MinRules    int
-	MaxRules    int
-	UseTop      bool    // top-level variable N
-	DynSel      float64 // probability that the program addresses F.Arr only through F.Arr[F.I]
-	PMethod     float64 // probability of method atoms in integer/boolean positions
-	PFault      float64 // probability of fault-prone atoms (F.Q.V with nil Q, % 0, Risky, bad index)
-	PRetract    float64
-	PComplete   float64
-	PSetter     float64
-	PHeavy      float64 // counted method Heavy(...) shared between rules
-	Saliences   []int64
-	MaxActs     int
-	PTrueish    float64 // bias conditions towards being true (conflict sets with several candidates)
-	PRemoved    float64 // probability that a rule is removed before instantiation
-	PStr        float64
-	POnce       float64 // probability that a rule gets a bare method-call action (no Forget) and retracts itself
-	PDep        float64 // probability that an assignment targets a location some condition reads
-	PRepoint    float64 // probability of the action F.P = F.Spare
-	OneHeavy    bool    // the program holds exactly one counted atom F.Heavy(<path>), shared by its rules (C13)
+	Name      string
+	MinRules  int
+	MaxRules  int
+	UseTop    bool    // top-level variable N
+	DynSel    float64 // probability that the program addresses F.Arr only through F.Arr[F.I]
+	PMethod   float64 // probability of method atoms in integer/boolean positions
+	PFault    float64 // probability of fault-prone atoms (F.Q.V with nil Q, % 0, Risky, bad index)
+	PRetract  float64
+	PComplete float64
+	PSetter   float64
+	PHeavy    float64 // counted method Heavy(...) shared between rules
+	Saliences []int64
+	MaxActs   int
+	PTrueish  float64 // bias conditions towards being true (conflict sets with several candidates)
+	PRemoved  float64 // probability that a rule is removed before instantiation
+	PStr      float64
+	POnce     float64 // probability that a rule gets a bare method-call action (no Forget) and retracts itself
+	PDep      float64 // probability that an assignment targets a location some condition reads
+	PRepoint  float64 // probability of the action F.P = F.Spare
+	OneHeavy  bool    // the program holds exactly one counted atom F.Heavy(<path>), shared by its rules (C13)
 }
 
 var profiles = map[string]*Profile{
@@ -61,8 +61,8 @@ type Gen struct {
 	p       *Profile
 	dynArr  bool
 	names   []string
-	heavy   Expr // the shared Heavy(...) atom of this program, if any
-	sharedB Expr // a boolean sub-expression shared between rules
+	heavy   Expr  // the shared Heavy(...) atom of this program, if any
+	sharedB Expr  // a boolean sub-expression shared between rules
 	used    []loc // integer locations read by the conditions generated so far
 }
 
